@@ -56,6 +56,12 @@ def run(ck):
                  "expected one (None / n / (min, max)); check_signature raises on any message and "
                  "on differing names", 'ordering domain', 3)
 
+    R8 = ck.rule('R15.8', "a plain constant is resolved to an object that holds exactly that constant: abstract "
+                 "run of Const.__new__ / __init__ on pairs of constants that Python's equality and hashing "
+                 "identify (1/True/1.0, 0/False/0.0, equal hashes), on equal and on unhashable values", 'M0', 2)
+    with ck.section('R15.8'):
+        from rules.shared import const_identity_run
+        const_identity_run(ck, R8)
     with ck.section('R15.1'):
         # ------------------------------------------------------------------ R15.1
         n = 0
